@@ -329,9 +329,7 @@ Proof. intros cur. split; [apply inv_cases; cbn [mf_reset ms_safe]; lia | reflex
 Lemma quiet_tick_safe : forall cur s, fst (mf_schedule cur s) = FwOk [] ->
   ms_safe (snd (mf_schedule cur s)) = mf_safe_after_test cur s.
 Proof.
-  intros cur s H. unfold mf_schedule in *. cbv zeta in *.
-  destruct (fw_mframe_schedule (mf_tasks_after cur s) cur) as [| |cs]; cbn [fst] in H; try discriminate.
-  injection H as ->. reflexivity.
+  intros cur s H. rewrite tick_core in H. unfold mf_schedule. cbv zeta. rewrite H. reflexivity.
 Qed.
 
 (* liveness: the state as left by the tick of frame cur (invariant), task t requested; if the next three ticks start no set, t is
